@@ -303,48 +303,3 @@ Proof.
   destruct (text_weave (flat_program p) gs None (flat_program_ok p Hwf Hsrc) Hlay) as (gs' & Heq & Hlay').
   rewrite Heq. apply (text_roundtrip p gs' Hwf Hlay').
 Qed.
-
-(* ---- a sufficient condition on the SOURCE for the hypothesis of error_names_line: every line
-        has an even number of double quotes before its comment *)
-From Pybtex Require Import Proofs.BstComment.
-
-Lemma ssl_line l : no_linebreak l = true -> forall inq r,
-  ssl inq (l ++ r) = ssl (if Nat.even (quotes l) then inq else negb inq) r.
-Proof.
-  induction l as [|c l IH]; intros Hl inq r; [reflexivity|].
-  unfold no_linebreak in Hl. cbn [forallb] in Hl. apply andb_prop in Hl as [Hc Hl]. apply negb_true_iff in Hc.
-  assert (Hlf : (c =? 10) = false).
-  { destruct (c =? 10) eqn:E; [|reflexivity]. apply N.eqb_eq in E. subst c. discriminate. }
-  cbn [app ssl quotes]. destruct (c =? c_quote) eqn:Eq.
-  - rewrite (IH Hl). cbn [Nat.add]. rewrite Nat.even_succ, <- Nat.negb_even.
-    destruct (Nat.even (quotes l)); cbn [negb]; [reflexivity|now rewrite negb_involutive].
-  - rewrite Hlf, andb_false_r. rewrite (IH Hl). reflexivity.
-Qed.
-
-Lemma ssl_join ls : Forall (fun l => no_linebreak l = true /\ Nat.even (quotes l) = true) ls ->
-  ssl false (join [c_nl] ls) = true.
-Proof.
-  induction ls as [|l ls IH]; intros H; [reflexivity|].
-  inversion H as [|? ? [Hl He] Hls]; subst.
-  destruct ls as [|l2 ls2].
-  - cbn [join]. rewrite <- (app_nil_r l), (ssl_line l Hl), He. reflexivity.
-  - rewrite join_cons2, (ssl_line l Hl), He. cbn [app ssl]. apply (IH Hls).
-Qed.
-
-Definition balanced_quotes (src : str) : Prop :=
-  Forall (fun l => Nat.even (quotes (strip_comment l)) = true) (splitlines src).
-
-Lemma balanced_quotes_ssl src : balanced_quotes src -> ssl false (text_of_string src) = true.
-Proof.
-  intros H. unfold text_of_string. apply ssl_join.
-  pose proof (splitlines_pieces src) as Hp. unfold balanced_quotes in H.
-  induction Hp as [|l ls Hl Hls IH]; cbn [map]; [constructor|].
-  inversion H; subst. constructor; [|now apply IH].
-  split; [|assumption]. unfold strip_comment, no_linebreak. apply strip_comment_go_forallb. exact Hl.
-Qed.
-
-Theorem error_names_line_src : forall src c l,
-  balanced_quotes src -> parse_string src = PyErr c l ->
-  (1 <= l <= Z.of_nat (Nat.max 1 (length (splitlines src))))%Z /\
-  exists pre post, text_of_string src = pre ++ post /\ l = (1 + lf pre)%Z /\ error_site c pre post.
-Proof. intros src c l H. apply error_names_line. now apply balanced_quotes_ssl. Qed.
